@@ -621,3 +621,24 @@ for r in PLANS["C17"]["thorough"]:
     r["crash_props"] = sorted(set(r.get("crash_props", []) + ["C17"]))
 PLANS["C17"]["bounds"] = dict(PLANS["C17"]["bounds"], thorough="adds on the sanitizer build: invalid calls after one operation, depth-3 reduced histories, all copy interleavings, cpar, S0q1 and T; Valgrind memcheck (uninitialised values fatal) on depth-2 / solve;op;solve histories over the reduced alphabet and on 1600 LPs x entry/pricing/scaling configurations; double execution of depth-3 reduced histories and Sbq x K<=1")
 _dl("C17", thorough=3000)
+
+# Valgrind memcheck is cheap on the tiny history items: a slice of it belongs in the quick tier (uninitialised reads are invisible to ASan)
+PLANS["C17"]["quick"] = PLANS["C17"]["quick"] + [hist("hist-d2r-valgrind", "prod", 2, reduced=1, weight=2, wrapper=VALGRIND, timeout=600, crash_props=["C17"])]
+PLANS["C17"]["thorough"] = PLANS["C17"]["thorough"] + [hist("hist-d2-valgrind", "prod", 2, weight=6, wrapper=VALGRIND, timeout=600, crash_props=["C17"]),
+                                                      hist("inv-d0-valgrind", "prod", 0, family="inv", weight=2, wrapper=VALGRIND, timeout=600, crash_props=["C17"])]
+_VG = dict(wrapper=VALGRIND, timeout=600, crash_props=["C17"])
+_vg_more = [hist("inv-d1r-valgrind", "prod", 1, reduced=1, family="inv", weight=4, **_VG),
+            fam("copy-s1-valgrind", "prod", "copy", {"steps": 1}, weight=4, **_VG),
+            fam("cpar-valgrind", "prod", "cpar", {}, weight=4, **_VG),
+            fam("wr-LP-k1-valgrind", "prod", "wr", {"fmt": "LP", "k": 1, "chain": 1}, weight=1, **_VG),
+            fam("wr-MPS-k1-valgrind", "prod", "wr", {"fmt": "MPS", "k": 1, "chain": 1}, weight=1, **_VG),
+            fam("rd-LP-k1-valgrind", "prod", "rd", {"fmt": "LP", "k": 1}, weight=1, **_VG),
+            fam("rd-MPS-k1-valgrind", "prod", "rd", {"fmt": "MPS", "k": 1}, weight=1, **_VG),
+            fam("rdr-mut-valgrind", "prodl1", "rdr", {"mode": "mut"}, weight=3, **_VG),
+            fam("rdr-own-valgrind", "prodl1", "rdr", {"mode": "own", "via": "reader"}, weight=2, **_VG),
+            fam("rdr-rec-mps-k3-valgrind", "prodl1", "rdr", {"mode": "rec", "fmt": "mps", "k": 3}, weight=3, **_VG),
+            fam("basis-S1q-valgrind", "prod", "basis", {"fam": "S1q", "files": 1}, weight=2, **_VG),
+            fam("lowp-SN1-valgrind", "prod", "lowp", {"fam": "SN1"}, weight=2, range=[0, 8000], **_VG),
+            fam("factor-d3pm-u1-valgrind", "prod", "factor", {"dim": 3, "alpha": "pm", "upd": 1, "set": "012345"}, weight=2, range=[0, 20000], **_VG),
+            fam("meta-S0q1-d1-valgrind", "prodl1", "meta", {"fam": "S0q1", "depth": 1}, weight=2, range=[0, 30000], **_VG)]
+PLANS["C17"]["thorough"] = PLANS["C17"]["thorough"] + _vg_more
